@@ -109,6 +109,17 @@ class LoaderEngine(VectorEngine):
 
     # -- Flow A with a second, "explain" TLC pass for the mismatches -----------
     def flow_a(self, ctx, vecs, tag):
+        # in chunks, so that a badly broken tree (hundreds of stack overflows) fails fast
+        if len(vecs) > 2500:
+            av, ac, ar = [], [], {}
+            for k in range(0, len(vecs), 2500):
+                self.flow_a(ctx, vecs[k:k + 2500], f"{tag}.{k // 2500}")
+                v1, c1, r1 = self.last_results
+                av += v1; ac += c1; ar.update(r1)
+                if ctx.enough():
+                    break
+            self.last_results = (av, ac, ar)
+            return
         cases = []
         for i, v in enumerate(vecs):
             c = self.render(self.strip(v))
@@ -268,7 +279,7 @@ class C39(LoaderEngine):
     assumptions = ["faults are injected by the executor's in-memory loader: find_file returns Err(LoadError::Input) or a File whose Read fails",
                    "generated files are named <t>.scss, so @import makes 3 loader calls and the other kinds 1 (Loader!NCalls); the fault-free call count is cross-checked against the call log"]
     mc_runs = {
-        "quick": [("MC_Loader", "MC_Loader_C39_q.cfg", {"workers": 6})],
+        "quick": [("MC_Loader", "MC_Loader_C39_q1.cfg", {"workers": 4}), ("MC_Loader", "MC_Loader_C39_q.cfg", {"workers": 6})],
         "thorough": [("MC_Loader", "MC_Loader_C39_q.cfg", {}), ("MC_Loader", "MC_Loader_C39_t.cfg", {"timeout": 3000})],
     }
     random_n = {"quick": 0, "thorough": 0}
